@@ -196,8 +196,11 @@ impl Mac {
         }?;
         let (mut tx_config, tx_channel) =
             self.region.create_tx_config(rng, self.configuration.data_rate, &Frame::Data);
+        // The power commanded by the network is an upper bound in addition to
+        // the maximum power of the radio, not a replacement for it.
+        let max_power = self.board_eirp.max_power;
         tx_config.adjust_power(
-            self.configuration.tx_power.unwrap_or(self.board_eirp.max_power),
+            self.configuration.tx_power.map_or(max_power, |p| p.min(max_power)),
             self.board_eirp.antenna_gain,
         );
         Ok((tx_config, self.rx_windows(&tx_channel), fcnt))
